@@ -36,10 +36,13 @@ func (s Stored) String() string {
 
 // TableSpec describes a table sharing the condition columns.
 type TableSpec struct {
-	Name     string
-	Soft     bool     // has deleted_at
-	SoftCols []string // soft-delete columns when there are several or the name differs (implies Soft)
-	Extra    []string // extra integer columns (foreign keys)
+	Name        string
+	Soft        bool     // has deleted_at
+	SoftCols    []string // soft-delete columns when there are several or the name differs (implies Soft)
+	SoftDefault string
+	// (SoftDefault: SQL literal the soft-delete column(s) default to - zeroValue models keep a
+	// time there instead of NULL; "" = no default)
+	Extra []string // extra integer columns (foreign keys)
 }
 
 func (t TableSpec) softCols() []string {
@@ -63,6 +66,9 @@ func (t TableSpec) Create(db *sql.DB) error {
 	cols := "id integer PRIMARY KEY, ca integer, cb integer, cs text, cn integer, ct text, cor integer, band text, mark integer"
 	for _, c := range t.softCols() {
 		cols += ", " + c + " datetime"
+		if t.SoftDefault != "" {
+			cols += " DEFAULT " + t.SoftDefault
+		}
 	}
 	for _, e := range t.Extra {
 		cols += ", " + e + " integer"
